@@ -119,7 +119,7 @@ func (verifC17Logger) Printf(string, ...interface{}) {}
 func verifC17Content(seed, n int) []byte {
 	b := make([]byte, n)
 	for i := range b {
-		b[i] = byte((seed*131 + i*17 + (i/256)*5) % 256)
+		b[i] = byte((seed*seed*31 + seed*7 + i*i*(seed%7+1) + i*(seed%13+3)*5 + (i/256)*11) % 256)
 	}
 	return b
 }
@@ -316,10 +316,13 @@ func verifC17Case(line string) (out string) {
 		mounts[verifC17Unhex(p[0])] = m
 	}
 	for mnt, m := range mounts {
-		// A tmp mount below the output path makes walkMountsBelow restart the symlink budget; with a
-		// link cycle the real code recurses until the stack limit. Not run (outside the quantifier).
-		if m.Kind == "tmp" && strings.HasPrefix(mnt, ctrOut+"/") {
-			return "skip-nested-tmp"
+		// Configurations outside the property's quantifier that the model does not cover (see
+		// notes/C17.md): a tmp mount other than the output directory (walkHostFS computes its host
+		// path from the output directory: slice-bounds panic or another file; below the output path
+		// it also restarts the symlink budget, so a link cycle recurses until the stack limit), a
+		// writable collection mount, a mount above the output path (same unbounded recursion).
+		if (m.Kind == "tmp" && mnt != ctrOut) || (m.Kind == "collection" && m.Writable) || strings.HasPrefix(ctrOut, mnt+"/") {
+			return "skip-config"
 		}
 	}
 	secrets := map[string]arvados.Mount{}
